@@ -69,6 +69,21 @@ Theorem max_normalise_ok : forall l mx l',
 Proof. exact max_normalise_spec. Qed.
 Print Assumptions max_normalise_ok.
 
+(* constant data (maximum <= 0 after centring) is left alone (F43); before that fix it was
+   divided by its zero maximum *)
+Theorem max_normalise_constant_data : forall l mx,
+  max_coeff l = Some mx -> (mx <= 0)%Q -> max_normalise l = Some l.
+Proof. exact max_normalise_nonpositive. Qed.
+Print Assumptions max_normalise_constant_data.
+
+Example max_normalise_constant_data_nonvacuous : max_coeff [0; 0; 0]%Q = Some 0%Q /\ (0 <= 0)%Q.
+Proof. split; [reflexivity | discriminate]. Qed.
+
+Theorem max_normalise_refuted :
+  max_normalise_shipped [0; 0; 0]%Q = Some (map (fun x => x / 0)%Q [0; 0; 0]%Q).
+Proof. exact max_normalise_shipped_div0. Qed.
+Print Assumptions max_normalise_refuted.
+
 Example max_normalise_ok_nonvacuous : max_coeff [-3; 1; 2]%Q = Some 2%Q /\ (0 < 2)%Q.
 Proof. exact max_normalise_nonvacuous. Qed.
 
